@@ -519,6 +519,19 @@ class QGen:
             if r is None:
                 return self.num_leaf(scope)
             self.labels.add("First")
+            if fuel > 1 and self.chance(1, 4):
+                # an aggregate over the first element of a sequence of sequences
+                os_ = self.objseq(scope, 0)
+                if os_ is not None:
+                    v = self.newvar(scope, "j")
+                    self.noflat += 1
+                    inner = self.unbare(self.bind(scope, v, TObj(os_[1])), self.numseq(self.bind(scope, v, TObj(os_[1])), 0))
+                    self.noflat -= 1
+                    if inner is not None:
+                        self.labels.add("First-of-sequences")
+                        self.nops += 2
+                        agg = self.pick(["Count()", "Sum()", "First()"])
+                        return (f"{os_[0]}.Select(lambda {v}: {inner[0]}).First().{agg}", "int" if agg == "Count()" else inner[1])
             return (f"{r[0]}.First()", r[1])
         if k == "index":
             objs = self.obj_sources(scope, fuel)
@@ -682,7 +695,15 @@ class QGen:
                     self.labels.add("First")
                     self.labels.add("First-of-sequences")
                     self.nops += 2
-                    return (f"{os_[0]}.Select(lambda {v}: {inner[0]}).First()", TSeq(TNum(inner[1])))
+                    base = f"{os_[0]}.Select(lambda {v}: {inner[0]}).First()"
+                    how = self.weighted([(3, "plain"), (2, "select"), (1, "where")])
+                    if how == "select":
+                        x = self.newvar(scope, "x")
+                        return (f"{base}.Select(lambda {x}: {x} + 1)", TSeq(TNum(inner[1])))
+                    if how == "where":
+                        x = self.newvar(scope, "x")
+                        return (f"{base}.Where(lambda {x}: {x} > 1)", TSeq(TNum(inner[1])))
+                    return (base, TSeq(TNum(inner[1])))
             k = "seq"
         if k == "typed-leaf-seq":
             os_ = self.objseq(scope, fuel - 1)
